@@ -50,12 +50,15 @@ Section ObjStm.
       objstm_parts rs (map (fun o => fmt (pobj_obj o)) os) 0 = (head, body) /\
       length rs = length os /\ NoDup (map fst rs) /\
       nth_error (map fst rs) (N.to_nat i) = Some n /\
-      exists o, nth_error os (N.to_nat i) = Some o /\ wlookup n (wr st) = Some (0, VObj (pobj_obj o)).
+      (* every member of the batch has its record *)
+      forall k m, nth_error (map fst rs) k = Some m ->
+        exists o, nth_error os k = Some o /\ wlookup m (wr st) = Some (0, VObj (pobj_obj o)).
 
   Lemma member_ok_grows st st' n s i : grows st st' -> member_ok st n s i -> member_ok st' n s i.
   Proof.
-    intros [G1 G2] [rs [os [head [body [off [A [B [C [D [E [F [o [P Q]]]]]]]]]]]]].
-    exists rs, os, head, body, off. repeat split; auto. exists o. auto.
+    intros [G1 G2] [rs [os [head [body [off [A [B [C [D [E [F M]]]]]]]]]]].
+    exists rs, os, head, body, off. repeat split; auto.
+    intros k m Hk. destruct (M k m Hk) as [o [P Q]]. exists o. auto.
   Qed.
 
   (* one step of the writer: the maps grow, and a new compressed entry is a member *)
@@ -352,7 +355,6 @@ Section ObjStm.
     2:{ cbn in Hold. destruct (n =? sref); discriminate. }
     injection Hold as ->. right.
     destruct (comp_entries_lookup _ _ _ _ _ Ec) as [k [Hk1 Hk2]]. injection Hk2 as -> ->.
-    destruct (rec_entries_lookup rs os k n Len ND Zg Hk1) as [o [Ho Hw]].
     (* the container's record *)
     unfold Writer.close_stream in Hk. binv Hk.
     edestruct (finish_stream_records big st5 a1) as [lw [Wf Lf]]; [unfold st5; cbn; reflexivity | exact Hb2 |]. cbn in Wf, Lf.
@@ -366,10 +368,12 @@ Section ObjStm.
     { apply Gw. cbn. rewrite Wf, Wo, wlookup_app, Wsref. exact Lf. }
     split; [exact OP|]. split; [exact Len|]. split; [exact ND|]. split.
     { rewrite ?N.add_0_l, Nat2N.id. exact Hk1. }
-    exists o. rewrite ?N.add_0_l, Nat2N.id. split; [exact Ho|].
+    intros k' m Hk'.
+    destruct (rec_entries_lookup rs os k' m Len ND Zg Hk') as [o [Ho Hw]].
+    exists o. split; [exact Ho|].
     apply Gw. cbn. rewrite Wf, Wo, Wr, Wc, F6, !wlookup_app.
-    assert (Wn : wlookup n (wr st) = None).
-    { eapply wr_fresh; [exact I0|]. exact En. }
+    assert (Wn : wlookup m (wr st) = None).
+    { eapply wr_fresh; [exact I0|]. rewrite <- F3. apply Fr. eapply nth_error_In; eassumption. }
     rewrite Wn, Hw. reflexivity.
   Qed.
 
